@@ -57,7 +57,7 @@ def one(name):
             run(['git', '-C', '/repo', 'worktree', 'remove', '--force', wt], '/repo')
             shutil.rmtree(wt, ignore_errors=True)
             run(['git', '-C', '/repo', 'worktree', 'prune'], '/repo')
-    meta.setdefault('confirmations', []).append(res)
+    res.setdefault('checks', {}); meta.setdefault('evaluations', []).append(res)
     json.dump(meta, open(os.path.join(d, 'meta.json'), 'w'), indent=1)
     return name, res
 
